@@ -304,6 +304,45 @@ class PEngine:
             for nx in self.step(fn, ctx, st, summ, heads, is_root):
                 push(nx)
 
+    def counters(self, fn):
+        """locals that are incremented / decremented from their own previous value (`l = l + c`, through the checked-add
+        temporary and copies)"""
+        c = self._counters.get(fn.path) if hasattr(self, "_counters") else None
+        if c is not None:
+            return c
+        if not hasattr(self, "_counters"):
+            self._counters = {}
+        from .facts import op_local as _ol, op_place as _op
+        copies = {}
+        arith = {}
+        for b, i, st in fn.stmts():
+            if st["k"] != "assign" or st["place"]["p"]:
+                continue
+            rv, l = st["rv"], st["place"]["l"]
+            if rv["k"] == "use":
+                pl = _op(rv["op"])
+                if pl is not None:
+                    copies.setdefault(l, set()).add((pl["l"], bool(pl["p"])))
+            elif rv["k"] == "bin" and rv["op"] in ("Add", "AddWithOverflow", "Sub", "SubWithOverflow"):
+                arith[l] = {x for x in (_ol(rv["a"]), _ol(rv["b"])) if x is not None}
+        out = set()
+        for l, srcs in copies.items():
+            for src, proj in srcs:
+                if src in arith:
+                    ops = set(arith[src])
+                    # operands that are plain copies of l
+                    for o in list(ops):
+                        for s2, pr2 in copies.get(o, ()):
+                            if not pr2:
+                                ops.add(s2)
+                    if l in ops:
+                        out.add(l)
+        for l, ops in arith.items():
+            if l in ops:
+                out.add(l)
+        self._counters[fn.path] = out
+        return out
+
     def split(self, st, groups):
         """re-enter the same block with the kind set partitioned into `groups` (iterable of sets)"""
         bb, S, envt, prog, since, la, marks, ntok, nodes, bo, sy = st
@@ -345,6 +384,10 @@ class PEngine:
                 except Unsupported:
                     v = U
                 if pl["p"]:
+                    v = U
+                if not pl["p"] and pl["l"] in self.counters(fn):
+                    # a counter (`n = n + 1` in a loop) takes unboundedly many values: it is unknown, both sides of a test on
+                    # it are explored
                     v = U
                 env[pl["l"]] = v
                 if has_table(v):
